@@ -237,30 +237,43 @@ Section WF.
     s_seqx behav srec st (a ++ b) = match s_seqx behav srec st a with Some s => s_seqx behav srec s b | None => None end.
   Proof. induction a as [|c r IH]; intros st b; cbn [app s_seqx]; [reflexivity|]. destruct (s_step behav srec st c); [apply IH|reflexivity]. Qed.
 
-  (* ONE run: a wrap-free prefix h1, an append that takes the overflow branch, any re-entrant continuation h2 without a
-     further wrap — the whole run has the trace of the snapshot specification *)
-  Theorem run_across_one_top_level_wrap fuel nl h1 l c h h2 s1 s2 s' :
-    (1 < W)%N -> core_prog h1 -> core_prog h2 ->
-    run W chkR chkI chkO behav (S fuel) (init nl) h1 = Some s1 -> wrapped s1 = false ->
-    do_append W s1 l c h = Some s2 -> wrapped s2 = true ->
-    run W chkR chkI chkO behav (S fuel) (init nl) (h1 ++ Append l c h :: h2) = Some s' ->
-    (forall s3, run W chkR chkI chkO behav (S fuel) (clear_wrapped s2) h2 = Some s3 -> wrapped s3 = false) ->
-    exists ss', s_run behav (S fuel) (s_init nl) (h1 ++ Append l c h :: h2) = Some ss' /\ strace ss' = trace s'.
+  Definition is_add (c : cmd) : bool := match c with Append _ _ _ | Prepend _ _ _ | Insert _ _ _ _ => true | _ => false end.
+
+  (* an adding command that takes the overflow branch, as a step of the interpreter *)
+  Lemma add_cmd_wrap_R rec srec k st sst c st' :
+    (1 < W)%N -> is_add c = true -> R W st sst -> wrapped st = false ->
+    step W chkR chkI chkO behav rec k st c = Some st' -> wrapped st' = true ->
+    exists sst', s_step behav srec sst c = Some sst' /\ R W (clear_wrapped st') sst'.
   Proof.
-    intros HW Hp1 Hp2 R1 W1 A W2 Rall NoWrap.
+    intros HW Ha HR Hw0 Hs Hw. destruct c; try discriminate Ha; cbn [step] in Hs; cbn [s_step].
+    - apply (append_wrap_reestablishes_R W st sst l c h st' HW HR Hw0 Hs Hw).
+    - apply (prepend_wrap_reestablishes_R W st sst l c h st' HW HR Hw0 Hs Hw).
+    - apply (insert_wrap_reestablishes_R W behav st sst l c hb h st' HW HR Hw0 Hs Hw).
+  Qed.
+
+  (* ONE run: a wrap-free prefix h1, an addition (append / prepend / insert) that takes the overflow branch, any re-entrant
+     continuation h2 without a further wrap — the whole run has the trace of the snapshot specification *)
+  Theorem run_across_one_top_level_wrap fuel nl h1 c h2 s1 s2 s' :
+    (1 < W)%N -> core_prog h1 -> core_prog h2 -> is_add c = true ->
+    run W chkR chkI chkO behav (S fuel) (init nl) h1 = Some s1 -> wrapped s1 = false ->
+    step W chkR chkI chkO behav (run W chkR chkI chkO behav fuel) (S fuel) s1 c = Some s2 -> wrapped s2 = true ->
+    run W chkR chkI chkO behav (S fuel) (init nl) (h1 ++ c :: h2) = Some s' ->
+    (forall s3, run W chkR chkI chkO behav (S fuel) (clear_wrapped s2) h2 = Some s3 -> wrapped s3 = false) ->
+    exists ss', s_run behav (S fuel) (s_init nl) (h1 ++ c :: h2) = Some ss' /\ strace ss' = trace s'.
+  Proof.
+    intros HW Hp1 Hp2 Hadd R1 W1 A W2 Rall NoWrap.
     assert (HW0 : (0 < W)%N) by (apply N.lt_trans with 1%N; [reflexivity|exact HW]).
-    (* split the run *)
-    cbn [run] in Rall, R1. rewrite seqx_app in Rall. rewrite R1 in Rall. cbn [seqx step] in Rall. rewrite A in Rall.
+    cbn [run] in Rall, R1. rewrite seqx_app in Rall. rewrite R1 in Rall. cbn [seqx] in Rall. rewrite A in Rall.
     change (seqx W chkR chkI chkO behav (run W chkR chkI chkO behav fuel) (S fuel) s2 h2) with (run W chkR chkI chkO behav (S fuel) s2 h2) in Rall.
     rewrite (run_from_flagged (S fuel) s2 h2 Hp2) in Rall.
     destruct (run W chkR chkI chkO behav (S fuel) (clear_wrapped s2) h2) as [s3|] eqn:R3; [|discriminate Rall].
     cbn [option_map] in Rall. injection Rall as <-.
     specialize (NoWrap s3 eq_refl).
     destruct (CLMain.cl_run_refines W behav (S fuel) nl h1 s1 HW0 Hbehav Hp1 R1 W1) as (ss1 & X1 & _ & RR1).
-    destruct (append_wrap_reestablishes_R W s1 ss1 l c h s2 HW RR1 W1 A W2) as (ss2 & X2 & RR2).
+    destruct (add_cmd_wrap_R _ (s_run behav fuel) _ s1 ss1 c s2 HW Hadd RR1 W1 A W2) as (ss2 & X2 & RR2).
     destruct (CLMain.cl_run_refines_from W behav (S fuel) (clear_wrapped s2) ss2 h2 s3 Hbehav Hp2 RR2 R3 NoWrap) as (ss3 & X3 & T3 & RR3).
     exists ss3. split.
-    - cbn [s_run] in *. rewrite s_seqx_app. rewrite X1. cbn [s_seqx s_step]. rewrite X2. exact X3.
+    - cbn [s_run] in *. rewrite s_seqx_app. rewrite X1. cbn [s_seqx]. rewrite X2. exact X3.
     - rewrite T3. reflexivity.
   Qed.
 End WF.
